@@ -1552,8 +1552,12 @@ class Lower:
         core = init
         while core is not None and core.get('kind') in ('ExprWithCleanups', 'MaterializeTemporaryExpr', 'CXXBindTemporaryExpr'):
             core = self.inner(core)[0]
-        if core is not None and core.get('kind') == 'LambdaExpr':
-            return self.lambda_decl(v, core, ind)
+        lam = core
+        while lam is not None and (lam.get('kind') in ('ImplicitCastExpr', 'ExprWithCleanups', 'MaterializeTemporaryExpr', 'CXXBindTemporaryExpr')
+                                   or (lam.get('kind') == 'CXXConstructExpr' and len(self.inner(lam)) == 1)):
+            lam = self.inner(lam)[0]           # `const auto f = [..]{..};` copy-initialises from the closure object
+        if lam is not None and lam.get('kind') == 'LambdaExpr':
+            return self.lambda_decl(v, lam, ind)
         hoist = nm in self.cur_spec.get('hoist', []) or (self.cur_spec.get('hoist_all') and bool(self.loop_depth))
         m = re.match(r'^(.*)\[(\d+)\]$', norm_type(qt))
         if m and '(&' not in qt:
